@@ -276,21 +276,25 @@ Definition level_to_name (nm : naming) (level : Z) : Z :=
   end.
 
 (* ---------------- blob_to_df ---------------- *)
-(* a column of the data frame: which level (position in the hierarchy) and which element.
+(* a column of the data frame.  The real column NAME is the string f'{readable_level}_{element}': the key
+   holds the READABLE level name rl = level_to_name(level) (not the position of the level): two levels
+   that the hierarchy_mapper sends to one readable name share their columns (finding F31).
    field: 0 bootstrapping_probability, 1 avg_correlation, 2 aggregate_probability, 3 directly_assigned
-   runner-up kind: 0 assignment, 1 correlation, 2 probability ; idx = position in the list *)
+   runner-up kind: 0 assignment, 1 correlation, 2 probability ; idx = position in the list.
+   (Two keys that differ as (rl, element) differ as strings: no element name is '<x>_<element>' of
+   another; the harness checks the injectivity of its column-name table on every case.) *)
 Inductive colkey :=
-  | KId | KLabel (lv : nat) | KName (lv : nat) | KAlias (lv : nat)
-  | KField (lv : nat) (f : nat) | KRun (lv : nat) (kind : nat) (idx : nat).
+  | KId | KLabel (rl : Z) | KName (rl : Z) | KAlias (rl : Z)
+  | KField (rl : Z) (f : nat) | KRun (rl : Z) (kind : nat) (idx : nat).
 Definition colkey_eqb (a b : colkey) : bool :=
   match a, b with
   | KId, KId => true
-  | KLabel x, KLabel y | KName x, KName y | KAlias x, KAlias y => Nat.eqb x y
-  | KField x f, KField y g => Nat.eqb x y && Nat.eqb f g
-  | KRun x k i, KRun y l j => Nat.eqb x y && Nat.eqb k l && Nat.eqb i j
+  | KLabel x, KLabel y | KName x, KName y | KAlias x, KAlias y => x =? y
+  | KField x f, KField y g => (x =? y) && Nat.eqb f g
+  | KRun x k i, KRun y l j => (x =? y) && Nat.eqb k l && Nat.eqb i j
   | _, _ => false
   end.
-Definition col_level (k : colkey) : option nat :=
+Definition col_level (k : colkey) : option Z :=
   match k with
   | KId => None
   | KLabel x | KName x | KAlias x | KField x _ | KRun x _ _ => Some x
@@ -302,36 +306,50 @@ Fixpoint enum_from {A} (k : nat) (l : list A) : list (nat * A) :=
   match l with [] => [] | x :: t => (k, x) :: enum_from (S k) t end.
 
 (* the elements of cell[level] other than 'assignment', in the key order the mapper creates them *)
-Definition level_elements (lv : nat) (l : lvl) : list (colkey * dval) :=
-  [(KField lv 0, DNum (l_prob l)); (KField lv 1, DNum (l_corr l))] ++
+Definition level_elements (rl : Z) (l : lvl) : list (colkey * dval) :=
+  [(KField rl 0, DNum (l_prob l)); (KField rl 1, DNum (l_corr l))] ++
   (match l_run l with
    | None => []
    | Some r =>
-       map (fun p => (KRun lv 0 (fst p), DName (snd p))) (enum_from 0 (ru_assign r)) ++
-       map (fun p => (KRun lv 1 (fst p), DNum (snd p))) (enum_from 0 (ru_corr r)) ++
-       map (fun p => (KRun lv 2 (fst p), DNum (snd p))) (enum_from 0 (ru_prob r))
+       map (fun p => (KRun rl 0 (fst p), DName (snd p))) (enum_from 0 (ru_assign r)) ++
+       map (fun p => (KRun rl 1 (fst p), DNum (snd p))) (enum_from 0 (ru_corr r)) ++
+       map (fun p => (KRun rl 2 (fst p), DNum (snd p))) (enum_from 0 (ru_prob r))
    end) ++
-  [(KField lv 2, DNum (l_agg l)); (KField lv 3, DBool (l_direct l))].
+  [(KField rl 2, DNum (l_agg l)); (KField rl 3, DBool (l_direct l))].
 
-(* this_record for one level *)
-Definition level_record (nm : naming) (is_leaf : bool) (lv : nat) (level : Z) (l : lvl) : list (colkey * dval) :=
-  [(KLabel lv, DName (l_assign l)); (KName lv, DName (label_to_name nm level (l_assign l) false))] ++
-  (if is_leaf then [(KAlias lv, DName (label_to_name nm level (l_assign l) true))] else []) ++
-  level_elements lv l.
+(* the assignments `this_record[key] = value` made for one level, in program order *)
+Definition level_record (nm : naming) (is_leaf : bool) (level : Z) (l : lvl) : list (colkey * dval) :=
+  let rl := level_to_name nm level in
+  [(KLabel rl, DName (l_assign l)); (KName rl, DName (label_to_name nm level (l_assign l) false))] ++
+  (if is_leaf then [(KAlias rl, DName (label_to_name nm level (l_assign l) true))] else []) ++
+  level_elements rl l.
 
-Fixpoint levels_record (nm : naming) (lv : nat) (hier : list Z) (ls : list lvl) : res (list (colkey * dval)) :=
+(* ... for all levels of the hierarchy (is_leaf: level == taxonomy_tree.leaf_level, the last one) *)
+Fixpoint levels_record (nm : naming) (hier : list Z) (ls : list lvl) : res (list (colkey * dval)) :=
   match hier with
   | [] => Ok []
   | level :: ht =>
       match ls with
       | [] => Err E_KEY
       | l :: lt =>
-          bind (levels_record nm (S lv) ht lt)
-               (fun rest => Ok (level_record nm (match ht with [] => true | _ => false end) lv level l ++ rest))
+          bind (levels_record nm ht lt)
+               (fun rest => Ok (level_record nm (match ht with [] => true | _ => false end) level l ++ rest))
       end
   end.
+
+(* a Python dict built by assignments: d[k] = v replaces the value of an existing key IN PLACE (the key
+   keeps the position of its first insertion) and appends a new key at the end *)
+Fixpoint dset {A} (k : colkey) (v : A) (r : list (colkey * A)) : list (colkey * A) :=
+  match r with
+  | [] => [(k, v)]
+  | (k', v') :: t => if colkey_eqb k k' then (k, v) :: t else (k', v') :: dset k v t
+  end.
+Definition dict_of {A} (kvs : list (colkey * A)) : list (colkey * A) :=
+  fold_left (fun r kv => dset (fst kv) (snd kv) r) kvs [].
+
+(* this_record = {'cell_id': ...}; then the assignments of every level *)
 Definition cell_record (nm : naming) (hier : list Z) (c : cell) : res (list (colkey * dval)) :=
-  bind (levels_record nm 0 hier (c_levels c)) (fun r => Ok ((KId, DName (c_id c)) :: r)).
+  bind (levels_record nm hier (c_levels c)) (fun r => Ok (dict_of ((KId, DName (c_id c)) :: r))).
 
 (* pd.DataFrame(records): the columns are the keys in order of first appearance *)
 Definition kmem (k : colkey) (l : list colkey) : bool := existsb (colkey_eqb k) l.
@@ -379,19 +397,19 @@ Definition csv_cell (cat : bool) (v : option dval) : cval :=
   | Some (DNum r) => if cat then CNumFull r else CNum4 (fmt4 r)
   | Some (DBool b) => CBool b
   end.
-(* categ = per level, whether the readable level name contains 'label', 'name', 'alias' or 'assignment' *)
-Definition col_categ (categ : list bool) (k : colkey) : bool :=
-  match col_level k with Some lv => nth lv categ false | None => false end.
+(* categ = the readable level names that contain 'label', 'name', 'alias' or 'assignment' *)
+Definition col_categ (categ : list Z) (k : colkey) : bool :=
+  match col_level k with Some rl => zmem rl categ | None => false end.
 
 (* the columns that survive `columns_to_drop`: cell_id; anything containing 'name', 'label',
    'alias' or the confidence label.  conf = 0: bootstrapping_probability, 1: avg_correlation
-   (renamed correlation_coefficient).  sticky = per level, whether the readable level name
-   itself contains one of those words (then every column of the level is kept). *)
-Definition keep_col (conf : nat) (sticky : list bool) (k : colkey) : bool :=
+   (renamed correlation_coefficient).  sticky = the readable level names that themselves
+   contain one of those words (then every column of the level is kept). *)
+Definition keep_col (conf : nat) (sticky : list Z) (k : colkey) : bool :=
   match k with
   | KId | KLabel _ | KName _ | KAlias _ => true
-  | KField lv f => Nat.eqb f conf || nth lv sticky false
-  | KRun lv _ _ => nth lv sticky false
+  | KField rl f => Nat.eqb f conf || zmem rl sticky
+  | KRun rl _ _ => zmem rl sticky
   end.
 
 (* comment lines: 0 metadata file name; 1 hierarchy; 2 readable hierarchy; 3 version line
@@ -423,13 +441,20 @@ Fixpoint map2 {A B C} (f : A -> B -> C) (a : list A) (b : list B) : list C :=
   | _, _ => []
   end.
 
-Definition blob_to_csv (nm : naming) (hier : list Z) (meta : option Z) (algo : nat)
-           (conf : nat) (sticky categ : list bool) (b : blob) : res csv :=
+(* the table blob_to_csv hands to to_csv: the surviving columns and, per record, the cells under them;
+   `render` is what is made of a cell (None = NaN) of column k *)
+Definition blob_to_table {B} (render : colkey -> option dval -> B)
+           (nm : naming) (hier : list Z) (conf : nat) (sticky : list Z) (b : blob)
+  : res (list colkey * list (list B)) :=
   bind (blob_to_df nm hier b) (fun df =>
   let keep := map (keep_col conf sticky) (f_cols df) in
   let cols := select keep (f_cols df) in
-  Ok (mkCsv (csv_header nm hier meta algo) cols
-            (map (fun r => map2 (fun k v => csv_cell (col_categ categ k) v) cols (select keep r)) (f_rows df)))).
+  Ok (cols, map (fun r => map2 render cols (select keep r)) (f_rows df))).
+
+Definition blob_to_csv (nm : naming) (hier : list Z) (meta : option Z) (algo : nat)
+           (conf : nat) (sticky categ : list Z) (b : blob) : res csv :=
+  bind (blob_to_table (fun k v => csv_cell (col_categ categ k) v) nm hier conf sticky b) (fun t =>
+  Ok (mkCsv (csv_header nm hier meta algo) (fst t) (snd t))).
 
 (* ---------------- wire ---------------- *)
 Definition sx_rat (x : sx) : option rat :=
@@ -534,11 +559,11 @@ Definition sx_naming (x : sx) : option naming :=
 Definition of_colkey (k : colkey) : sx :=
   match k with
   | KId => L [I 0]
-  | KLabel lv => L [I 1; of_nat lv]
-  | KName lv => L [I 2; of_nat lv]
-  | KAlias lv => L [I 3; of_nat lv]
-  | KField lv f => L [I 4; of_nat lv; of_nat f]
-  | KRun lv k i => L [I 5; of_nat lv; of_nat k; of_nat i]
+  | KLabel rl => L [I 1; I rl]
+  | KName rl => L [I 2; I rl]
+  | KAlias rl => L [I 3; I rl]
+  | KField rl f => L [I 4; I rl; of_nat f]
+  | KRun rl k i => L [I 5; I rl; of_nat k; of_nat i]
   end.
 Definition of_cval (v : cval) : sx :=
   match v with
@@ -557,11 +582,11 @@ Definition of_hline (h : hline) : sx :=
   end.
 Definition of_csv (c : csv) : sx :=
   L [of_list of_hline (v_comments c); of_list of_colkey (v_cols c); of_list (of_list of_cval) (v_rows c)].
-(* tag 1504: (naming hierarchy meta? algo conf (sticky categ) blob) -> csv *)
+(* tag 1504: (naming hierarchy meta? algo conf (sticky-names categ-names) blob) -> csv *)
 Definition run_blob_to_csv (x : sx) : sx :=
   match x with
   | L [nm; h; m; a; c; L [s; g]; b] =>
-      match sx_naming nm, sx_LZ h, sx_opt sx_Z m, sx_nat a, sx_nat c, sx_list sx_bool s, sx_list sx_bool g with
+      match sx_naming nm, sx_LZ h, sx_opt sx_Z m, sx_nat a, sx_nat c, sx_LZ s, sx_LZ g with
       | Some nm', Some h', Some m', Some a', Some c', Some s', Some g' =>
           match sx_blob b with
           | Some b' => of_res of_csv (blob_to_csv nm' h' m' a' c' s' g' b')
